@@ -328,7 +328,7 @@ static void params_family(rng& g, int count)
         T x1 = k == 0 ? T(1) : x0 + T(1 + g.below(100000)) / T(1 + g.below(1000));
         T y0 = T((long long) g.below(2001) - 1000) / T(1000);
         T y1 = y0 + T(1 + g.below(1000)) / T(7);
-        hep::distribution_parameters<T> p(k == 0 ? 25 : bx, by, x0, x1, y0, y1, k % 3 ? "x" : " an observable");
+        hep::distribution_parameters<T> p(k == 0 ? 25 : bx, by, x0, x1, y0, y1, k % 3 == 1 ? "x" : (k % 3 ? "m(\\nu\\nu)" : " an observable"));
         std::ostringstream o;
         p.serialize(o);
         std::istringstream in(o.str());
@@ -347,18 +347,20 @@ static void params_family(rng& g, int count)
 template <typename E> static void engine_family(rng& g, char const* ename, E const& base, bool thorough, bool heavy)
 {
     // (a name is any line of text: it may look like a comment, a number or a header)
-    static char const* names[15] = {"", "x", " ", " x", "x ", "x y", "  ", "a b c", "#jets", "# 1 17", "12", "-1.5e+00 3", "cr\r", "\r", "tab\t"};
+    static char const* names[18] = {"", "x", " ", " x", "x ", "x y", "  ", "a b c", "#jets", "# 1 17", "12", "-1.5e+00 3", "cr\r", "\r", "tab\t",
+        // (backslashes are characters like any other: a LaTeX-style name, a path, a trailing backslash)
+        "p_T(\\ell\\nu)", "C:\\new\\table", "\\"};
     for (int kind = 0; kind != 3; ++kind)
         for (std::size_t nres = 0; nres <= (heavy ? 1u : 2u); ++nres)
         {
             std::vector<std::vector<dist_desc>> sets{{}};
-            if (nres && heavy) sets.push_back({dist_desc{names[g.below(15)], 1, 1}, dist_desc{names[g.below(15)], 2, 1 + g.below(2)}});
+            if (nres && heavy) sets.push_back({dist_desc{names[g.below(18)], 1, 1}, dist_desc{names[g.below(18)], 2, 1 + g.below(2)}});
             else if (nres)
             {
                 for (int k = 0; k != (thorough ? 8 : 4); ++k)
                 {
-                    sets.push_back({dist_desc{names[g.below(15)], 1 + g.below(2), 1 + g.below(2)}});
-                    sets.push_back({dist_desc{names[g.below(15)], 1, 1}, dist_desc{names[g.below(15)], 2, 1 + g.below(2)}});
+                    sets.push_back({dist_desc{names[g.below(18)], 1 + g.below(2), 1 + g.below(2)}});
+                    sets.push_back({dist_desc{names[g.below(18)], 1, 1}, dist_desc{names[g.below(18)], 2, 1 + g.below(2)}});
                 }
                 sets.push_back({dist_desc{"", 1, 1}});
                 sets.push_back({dist_desc{" x", 2, 2}, dist_desc{"", 1, 1}, dist_desc{" ", 1, 2}});
